@@ -380,3 +380,41 @@ fn long_argument_error_text() {
         Err(e) => assert!(e.cause.len() <= 128, "error value, not a panic; cause fits its buffer"),
     }
 }
+
+// ------------------------------------------------------------------ the error-cause buffer, for every fill level and chunk length
+struct NoHelp;
+impl core::fmt::Display for NoHelp {
+    fn fmt(&self, _f: &mut core::fmt::Formatter<'_>) -> core::fmt::Result {
+        Ok(())
+    }
+}
+static NOHELP: NoHelp = NoHelp;
+
+// @ob C20 quick cause_buffer_any_chunk fns=ArgParseCauseBuffer::write_str,ArgParseError::new_cause_str bound="buffer filled to any level 0..=128 by a first write, then one chunk of any length 0..=300 bytes: never a panic; accepted exactly when it fits; length and a probed byte exact" timeout=900
+#[kani::proof]
+#[kani::unwind(4)]
+fn cause_buffer_any_chunk() {
+    use core::fmt::Write;
+    let bytes: &'static [u8; 300] = alloc::boxed::Box::leak(alloc::boxed::Box::new([b'x'; 300]));
+    let n1: usize = kani::any();
+    let n2: usize = kani::any();
+    kani::assume(n1 <= 300 && n2 <= 300);
+    let s1 = unsafe { core::str::from_utf8_unchecked(&bytes[..n1]) };
+    let s2 = unsafe { core::str::from_utf8_unchecked(&bytes[..n2]) };
+    kani::cover!(n1 == 128, "first write fills the buffer exactly");
+    kani::cover!(n1 > 128, "first write alone is too long");
+    match tiny_std::unix::cli::ArgParseError::new_cause_str(&NOHELP, s1) {
+        Ok(mut e) => {
+            assert!(n1 <= 128 && e.cause.len() == n1, "accepted exactly when it fits");
+            let r = e.cause.write_str(s2);
+            kani::cover!(r.is_ok() && n1 + n2 == 128, "second chunk ends exactly at the capacity");
+            kani::cover!(r.is_err() && n2 > 128, "a single chunk longer than the whole buffer is refused, not a panic");
+            assert!(r.is_ok() == (n1 + n2 <= 128), "a chunk is accepted exactly when it fits the remaining space");
+            assert!(e.cause.len() == if r.is_ok() { n1 + n2 } else { n1 }, "length advances by the chunk, or not at all");
+        }
+        Err(e) => {
+            assert!(n1 > 128, "refused only when too long");
+            assert!(e.cause.len() <= 128);
+        }
+    }
+}
